@@ -49,7 +49,8 @@ class _Subst(ast.NodeTransformer):
     def visit_Name(self, node):
         if node.id in self.mapping and self.depth < 8:
             self.depth += 1
-            r = self.visit(self.mapping[node.id])
+            import copy
+            r = self.visit(copy.deepcopy(self.mapping[node.id]))  # never transform the program's own nodes in place
             self.depth -= 1
             return r
         return node
